@@ -79,4 +79,108 @@ theorem C20_snapshot_ahead_skips_unexecuted :
     let s := Order.Apply.run { n := {}, ledger := 0 } [.ready es, .snapshot, .restart, .ready [⟨3, some 3⟩], .execute, .execute]
     s.delivered = [] ∧ s.ledger = 0 := by decide
 
+/-! ### the vote a replica granted survives its restarts
+
+"Identical content on every replica" rests on raft electing at most one leader per term, which rests on every replica voting
+at most once per term — also after a crash.  The storage side of that: the term and the vote handed to `RaftStorage.Store`
+(with or without entries) are what a restarted node starts from. -/
+
+/-- the vote the node's storage holds after a history: the vote of the last hard state stored with a Ready that carried
+nothing else; entries, snapshots, reports, executions and restarts do not touch it -/
+def lastVote (v0 : Nat) : List Order.Apply.Op → Nat
+  | [] => v0
+  | .hardState _ v _ :: rest => lastVote v rest
+  | _ :: rest => lastVote v0 rest
+
+open Bxh.Order.Apply in
+theorem step_vote (s : Sys) (op : Op) :
+    (step s op).n.hs.2.1 = match op with | .hardState _ v _ => v | _ => s.n.hs.2.1 := by
+  have pub : ∀ (es : List Order.Entry) (m : Order.Node), (Order.publish m es).hs = m.hs := by
+    intro es
+    induction es with
+    | nil => intro m; rfl
+    | cons e rest ih =>
+      intro m
+      show (Order.publish (Order.publish1 m e) rest).hs = m.hs
+      rw [ih]
+      unfold Order.publish1
+      split
+      · rfl
+      · split
+        · rfl
+        · split <;> rfl
+  cases op with
+  | ready es =>
+    show (Order.ready s.n es).hs.2.1 = s.n.hs.2.1
+    unfold Order.ready
+    rw [pub]
+    show (Order.storeHs s.n.hs _).2.1 = _
+    unfold Order.storeHs
+    split <;> rfl
+  | snapshot => show (Order.snapshot s.n).hs.2.1 = _; unfold Order.snapshot; split <;> rfl
+  | report h => show (Order.report s.n h).hs.2.1 = _; unfold Order.report; split <;> rfl
+  | execute =>
+    have ex : (Order.execute s.n).1.hs = s.n.hs := by
+      unfold Order.execute; split <;> rfl
+    simp only [step]
+    generalize he : Order.execute s.n = r at ex
+    obtain ⟨n', o⟩ := r
+    cases o <;> simp only <;> rw [← ex]
+  | restart =>
+    show (Order.restart s.n s.ledger).1.hs.2.1 = _
+    unfold Order.restart
+    simp only
+    rw [pub]
+  | install idx height =>
+    show (Order.installSnap s.n idx height s.ledger).hs.2.1 = _
+    unfold Order.installSnap
+    simp only [Order.storeHs]
+    have key : ∀ (hs : List Nat) (m : Order.Node),
+        (hs.foldl (fun (m : Order.Node) h => if h = m.lastExec + 1 then { m with queue := m.queue ++ [h], lastExec := h } else m) m).hs = m.hs := by
+      intro hs
+      induction hs with
+      | nil => intro m; rfl
+      | cons x rest ih => intro m; simp only [List.foldl_cons]; rw [ih]; split <;> rfl
+    rw [key]
+  | hardState t v c => rfl
+
+open Bxh.Order.Apply in
+/-- **over every history of Ready batches, snapshots taken and installed, reports, executions and crash-restarts, the vote in the
+node's storage is the last vote it stored** — a restarted replica knows whom it voted for -/
+theorem C20_vote_survives_history (ops : List Order.Apply.Op) (s : Order.Apply.Sys) :
+    (run s ops).n.hs.2.1 = lastVote s.n.hs.2.1 ops := by
+  unfold run
+  induction ops generalizing s with
+  | nil => rfl
+  | cons op rest ih =>
+    simp only [List.foldl_cons]
+    rw [ih, step_vote]
+    cases op <;> rfl
+
+open Bxh.Order.Apply in
+/-- the term is never lowered by anything but a stored hard state (entries and snapshots are stored under the term the replica is
+in, at least 1) -/
+theorem C20_restart_keeps_hard_state (n : Order.Node) (ledger : Nat) : (Order.restart n ledger).1.hs = n.hs := by
+  have pub : ∀ (es : List Order.Entry) (m : Order.Node), (Order.publish m es).hs = m.hs := by
+    intro es
+    induction es with
+    | nil => intro m; rfl
+    | cons e rest ih =>
+      intro m
+      show (Order.publish (Order.publish1 m e) rest).hs = m.hs
+      rw [ih]
+      unfold Order.publish1
+      split
+      · rfl
+      · split
+        · rfl
+        · split <;> rfl
+  unfold Order.restart
+  simp only
+  rw [pub]
+
+/-- non-vacuity: the replica grants its vote to 2 in term 3, crashes, restarts, stores entries: it still holds (3, 2) -/
+example :
+    (Order.Apply.run { n := {}, ledger := 0 } [.ready [⟨1, some 1⟩], .hardState 3 2 1, .restart, .ready [⟨2, some 2⟩]]).n.hs = (3, 2, 2) := by decide
+
 end Bxh.Props.C20
